@@ -1,5 +1,6 @@
 import HapVerif.Proofs.ReconnectSilent
 import HapVerif.Proofs.ReconnectObs
+import HapVerif.Proofs.ReconnectFuel
 import HapVerif.Gen.Reconnect
 
 /-! # C10 - reconnection keeps trying with bounded back-off and a single connector
@@ -283,6 +284,49 @@ theorem C10_after_close_silent (hosts : List Host) (evs more : List Ev)
 theorem C10_close_sets_closing (s : St) (h : Inv s) :
     (step s .close).closing = true ∧ (step s .shutdown).closing = true ∧ (step s .shutdown).shutdown = true :=
   ⟨(closeConn_flags s s.shutdown h).1, (closeConn_flags s true h).1, (closeConn_flags s true h).2⟩
+
+/-! ## the loop cannot spin -/
+
+/-- in every reachable state the excluded addresses are advertised ones, without duplicates -/
+theorem C10_exclusions_wellformed (hosts : List Host) (evs : List Ev) :
+    (∀ h ∈ (run (init hosts) evs).failed, h ∈ (run (init hosts) evs).hosts) ∧
+    (run (init hosts) evs).failed.Nodup :=
+  ⟨(g_run hosts evs).1.sub, (g_run hosts evs).1.nd⟩
+
+/-- an immediate retry (`continue`) happens only after the exclusions grew beyond their size at the top of the
+    iteration, and they stay strictly smaller than the address list: at most once per address -/
+theorem C10_immediate_retry_once_per_address (as : List Host) (s : St)
+    (hsub : ∀ h ∈ s.failed, h ∈ s.hosts) (hnd : s.failed.Nodup) (has : ∀ x ∈ as, x ∈ s.hosts)
+    (h : (tcpPhase as s).2 = true) :
+    s.count0 < (tcpPhase as s).1.failed.length ∧ (tcpPhase as s).1.failed.length < s.hosts.length ∧
+    (tcpPhase as s).1.hosts = s.hosts := by
+  obtain ⟨_, t2, _, t4, t5⟩ := (h0_tcpPhase as s ⟨hsub, hnd⟩ has).2 h
+  exact ⟨t4, t5, t2⟩
+
+/-- hence the loop body runs at most (number of addresses not yet excluded) + 1 times at one instant: with that
+    much fuel the model's loop never runs dry (`stuck` is what it would report), whatever the scripted outcomes -/
+theorem C10_loop_bounded (fuel : Nat) (s : St) (hsub : ∀ h ∈ s.failed, h ∈ s.hosts) (hnd : s.failed.Nodup)
+    (hst : Stable s) (hf : s.hosts.length - s.failed.length < fuel) :
+    (loopTop fuel s).conn ≠ .stuck := by
+  have hle := List.Nodup.length_le_of_subset hnd (fun x hx => hsub x hx)
+  exact (loopTop_not_stuck fuel s ⟨hsub, hnd⟩ hst (by omega)).2
+
+/-- ... and no reachable state is `stuck`: the fuel the model uses is always sufficient -/
+theorem C10_never_stuck (hosts : List Host) (evs : List Ev) : (run (init hosts) evs).conn ≠ .stuck :=
+  (g_run hosts evs).2
+
+/-- so the retries end only by success, an authentication failure, or close -/
+theorem C10_retries_end_only_by_auth_or_close (hosts : List Host) (evs : List Ev)
+    (hcl : (run (init hosts) evs).closing = false) :
+    (run (init hosts) evs).conn = .idle ∨ (run (init hosts) evs).conn.live = true ∨
+    (run (init hosts) evs).conn = .doneAuth ∨
+    ((run (init hosts) evs).conn = .doneOk ∧ (run (init hosts) evs).isConnected = true) := by
+  rcases C10_retries_never_end hosts evs hcl with h | h | h | h | h
+  · exact Or.inl h
+  · exact Or.inr (Or.inl h)
+  · exact Or.inr (Or.inr (Or.inl h))
+  · exact absurd h (C10_never_stuck hosts evs)
+  · exact Or.inr (Or.inr (Or.inr h))
 
 /-- non-vacuity: two addresses; the first answers with a wrong pairing id, the second refuses; after the
     back-off (0.75 s) the next attempt is against both again -/
